@@ -89,12 +89,14 @@ class Canon:
   """Canonicaliser; one instance per canonical form (numbering is per instance)."""
 
   def __init__(self, *, history=False, tags=True, sharing=True,
-               fill_defaults=False, dict_order=False, types_only_partials=False):
+               fill_defaults=False, dict_order=False, callable_probe=False):
     self.history = history
     self.tags = tags
     self.sharing = sharing
     self.fill_defaults = fill_defaults
     self.dict_order = dict_order
+    self.callable_probe = callable_probe
+    self.probe_depth = 0
     self.ids = {}
     self.pins = []
     self.depth = 0
@@ -159,6 +161,20 @@ class Canon:
       return ('dict', type(x).__qualname__, self._items(x))
     if isinstance(x, (set, frozenset)):
       return (type(x).__qualname__, tuple(sorted((self.vterm(e) for e in x), key=repr)))
+    if self.callable_probe and callable(x) and not hasattr(x, '__vrec__') and (
+        isinstance(x, functools.partial) or hasattr(x, '__vprobe__')
+        or type(x).__name__ in ('_InvokeArgFactoryWrapper',)):
+      if self.probe_depth >= 3:
+        return ('callable', 'too-deep')
+      self.probe_depth += 1
+      try:
+        try:
+          r = x()
+        except Exception as e:  # pylint: disable=broad-except
+          return ('callable', ('raises', type(e).__name__ if isinstance(e, TypeError) else 'other'))
+        return ('callable', self.term(r))
+      finally:
+        self.probe_depth -= 1
     if isinstance(x, functools.partial):
       return ('fpartial', self.term(x.func), tuple(self.term(a) for a in x.args),
               tuple((k, self.term(v)) for k, v in sorted(x.keywords.items())))
